@@ -88,8 +88,10 @@ def judge(y, ref, exact, check_dtype, out=None):
                 bad = E.compare(val, ref, exact=exact, dtype=check_dtype)
                 if bad:
                     return ("entry-" + bad[0], ename, f"{ename}(x).compute(): {bad[1]}")
-                # follow-on operations on the returned collection
-                for fname in FOLLOW:
+                # follow-on operations on the returned collection (not on masked
+                # results: NumPy's own functions treat masks ad hoc, e.g.
+                # np.concatenate drops them, so there is no reference)
+                for fname in FOLLOW if not isinstance(ref, np.ma.MaskedArray) else ():
                     op = OPS.BY_NAME[fname]
                     if not op.applies(np.asarray(ref)):
                         continue
